@@ -1167,6 +1167,18 @@ func (c *c09ctx) assertOK(f *ssa.Function, st *pstate, x *Sym, target types.Type
 						return true, ""
 					}
 				}
+				if len(a2) == 2 {
+					// the type variable resolved to what its initialiser computed: reflect.TypeOf(<T'>)
+					if fn3, call3 := calleeOfSym(a2[1]); isReflectFunc(fn3, "TypeOf") && call3 != nil {
+						a3 := symArgs(st, a2[1])
+						if len(a3) == 0 && c.prog.SSA != nil {
+							a3 = symArgs(c.prog.Globals().st, a2[1])
+						}
+						if len(a3) == 1 && a3[0].K == sMkIface && a3[0].A != nil && a3[0].A.T != nil && types.Identical(a3[0].A.T, target) {
+							return true, ""
+						}
+					}
+				}
 			}
 			// (c) element of m.MapKeys() with m.Type().Key() == reflect.TypeOf(<T'>) on this path
 			e := args[0]
@@ -1429,7 +1441,7 @@ func (c *c09ctx) nilDeref(f *ssa.Function, st *pstate, ins ssa.Instruction, b *S
 		return
 	}
 	// Filter.evaluator: set once by CreateFilter (checked separately)
-	if b.K == sLoad && b.A.K == sFieldAddr && b.A.Str == "evaluator" {
+	if b.K == sLoad && b.A.K == sFieldAddr && b.A.Str == filterEvalField(c.prog) {
 		c.record(ins, "nil-deref", name, true, "", st)
 		c.site(ins, "", "").note = "discharged by constructor invariant (Filter literals only in CreateFilter with a non-nil evaluator)"
 		return
